@@ -540,6 +540,46 @@ func (x *ctx) compare(ids []int64, recent map[int64]bool) *vk.Failure {
 		}
 	}
 
+	// graph.NodesOf / EdgesOf / WeightedEdgesOf on fresh iterators
+	{
+		got := graph.NodesOf(s.g.Nodes())
+		gi := make([]item, len(got))
+		for i, n := range got {
+			gi[i] = nodeItem(n)
+		}
+		if want := m.nodeItems(); !sameItems(gi, want) {
+			return x.failf("nodesof", "graph.NodesOf(Nodes()) = %s, model %s", fmtItems(gi), fmtItems(want))
+		}
+		if s.edges != nil {
+			es := graph.EdgesOf(s.edges())
+			gi = gi[:0]
+			for _, e := range es {
+				it := edgeItem(e, !ki.multi)
+				if und {
+					it = it.canon()
+				}
+				gi = append(gi, it)
+			}
+			if want := wantAll(); !sameItems(gi, want) {
+				return x.failf("edgesof", "graph.EdgesOf(Edges()) = %s, model %s", fmtItems(gi), fmtItems(want))
+			}
+		}
+		if s.wedges != nil {
+			es := graph.WeightedEdgesOf(s.wedges())
+			gi = gi[:0]
+			for _, e := range es {
+				it := edgeItem(e, !ki.multi)
+				if und {
+					it = it.canon()
+				}
+				gi = append(gi, it)
+			}
+			if want := wantAll(); !sameItems(gi, want) {
+				return x.failf("weightededgesof", "graph.WeightedEdgesOf(WeightedEdges()) = %s, model %s", fmtItems(gi), fmtItems(want))
+			}
+		}
+	}
+
 	// From, To
 	for _, u := range ids {
 		if recent != nil && !recent[u] {
@@ -631,6 +671,26 @@ func (x *ctx) compare(ids []int64, recent map[int64]bool) *vk.Failure {
 			}
 			// graph.Empty is the documented answer when there is nothing; its
 			// (constant) behaviour is covered by Nodes() of an empty graph and by From of isolated nodes.
+			if s.mg != nil && len(ls) != 0 {
+				got := graph.LinesOf(s.mg.Lines(u, v))
+				gi := make([]item, len(got))
+				for i, l := range got {
+					gi[i] = lineItem(l)
+				}
+				if want := x.wantLinesOf(ls, u, false); !sameItems(gi, want) {
+					return x.failf("linesof", "graph.LinesOf(Lines(%d,%d)) = %s, model %s", u, v, fmtItems(gi), fmtItems(want))
+				}
+				if s.wmg != nil {
+					wgot := graph.WeightedLinesOf(s.wmg.WeightedLines(u, v))
+					gi = gi[:0]
+					for _, l := range wgot {
+						gi = append(gi, lineItem(l))
+					}
+					if want := x.wantLinesOf(ls, u, false); !sameItems(gi, want) {
+						return x.failf("weightedlinesof", "graph.WeightedLinesOf(WeightedLines(%d,%d)) = %s, model %s", u, v, fmtItems(gi), fmtItems(want))
+					}
+				}
+			}
 			if s.mg != nil {
 				if it := s.mg.Lines(u, v); len(ls) != 0 || it != graph.Empty {
 					if f := x.checkIter(linesView("Lines", it, false).with(u, v), x.wantLinesOf(ls, u, false)); f != nil {
